@@ -282,6 +282,8 @@ type c20FDeliv struct {
 
 type c20FSide struct {
 	conn    secs1.Connection
+	rec     *s1tRec   // recorded history of this endpoint's transport (s1t_hist.go)
+	calls   []s1tCall // its send calls: primaries and the replies its handler sent
 	mu      sync.Mutex
 	deliv   []c20FDeliv
 	replies int // replies this side's handler sent successfully
@@ -313,6 +315,8 @@ type c20FaultObs struct {
 	closedH, closedE rMetrics
 	log              []c20BoxLog
 	leftH, leftE     int // fault letters not consumed
+	sideH, sideE     *c20FSide
+	blkH, blkE       *secs1.ConnectionMetrics
 }
 
 func c20RunFaults(sp c20FaultSpec) c20FaultObs {
@@ -327,12 +331,13 @@ func c20RunFaults(sp c20FaultSpec) c20FaultObs {
 	defer close(boxDone)
 	const dev = 0x0123
 	mk := func(isEquip bool, c net.Conn) (*c20FSide, error) {
+		rec := newS1tRec(map[bool]string{true: "equipment", false: "host"}[isEquip])
 		opts := []secs1.Option{secs1.WithDeviceID(dev), secs1.WithT1(sp.T1), secs1.WithT2(sp.T2), secs1.WithT4(30 * time.Second), secs1.WithRetryLimit(3),
 			secs1.WithConnectionOption(hsms.WithT3(30 * time.Second)), secs1.WithConnectionOption(hsms.WithLogger(rNopLogger{}))}
 		used := false
 		if isEquip {
 			ln := newS1PipeListener()
-			ln.ch <- c
+			ln.ch <- &s1tLazyConn{Conn: c, rec: rec}
 			opts = append(opts, secs1.WithEquipment(), secs1.WithPassive(), secs1.WithListener(func(ctx context.Context, _, _ string) (net.Listener, error) {
 				if used {
 					return newS1PipeListener(), nil
@@ -347,18 +352,19 @@ func c20RunFaults(sp c20FaultSpec) c20FaultObs {
 					return nil, ctx.Err()
 				}
 				used = true
-				return c, nil
+				return rec.wrap(c), nil
 			}))
 		}
 		cfg, err := secs1.NewConfig("127.0.0.1", 5000, opts...)
 		if err != nil {
 			return nil, err
 		}
-		conn, err := secs1.New(cfg)
+		conn, err := secs1.VerifNewTraced(cfg, rec.tr) // = secs1.New with the transport's calls bracketed by the recorder
 		if err != nil {
 			return nil, err
 		}
-		s := &c20FSide{conn: conn}
+		rec.blockSend = conn.BlockMetrics().BlockSendCount
+		s := &c20FSide{conn: conn, rec: rec}
 		conn.AddDataMessageHandler(func(msg *hsms.DataMessage, ep hsms.SECS2Endpoint) {
 			d := c20FDeliv{Stream: msg.Stream(), Fn: msg.Function(), W: msg.WaitBit(), Body: msg.AppendBodyTo(nil)}
 			s.mu.Lock()
@@ -371,8 +377,18 @@ func c20RunFaults(sp c20FaultSpec) c20FaultObs {
 					defer s.rwg.Done()
 					ctx, cancel := context.WithTimeout(context.Background(), 30*time.Second)
 					defer cancel()
-					err := ep.ReplyDataMessage(ctx, msg, secs2.NewUintItem(4, uint32(rParseTag(d.Body))+1000000))
+					tag := uint32(rParseTag(d.Body)) + 1000000
+					call := s1tCall{Kind: "a", Tag: int64(tag), StartSt: rStamp()} // ReplyDataMessage = SendAsync
+					err := ep.ReplyDataMessage(ctx, msg, secs2.NewUintItem(4, tag))
+					var r rCallResult
+					rClassify(nil, err, &r)
+					if r.Outcome == "nilnil" {
+						r.Outcome = "sent"
+					}
+					call.Outcome, call.EndSt = r.Outcome, rStamp()
 					s.mu.Lock()
+					call.Idx = len(s.calls)
+					s.calls = append(s.calls, call)
 					if err == nil {
 						s.replies++
 					} else {
@@ -414,8 +430,19 @@ func c20RunFaults(sp c20FaultSpec) c20FaultObs {
 	sendAll := func(s *c20FSide, msgs []c20FMsg, ok *int, fail *[]string) {
 		for _, m := range msgs {
 			ctx, cancel := context.WithTimeout(context.Background(), 40*time.Second)
+			call := s1tCall{Kind: map[bool]string{true: "s", false: "f"}[m.W], Tag: int64(m.Tag), StartSt: rStamp()}
 			reply, err := s.conn.SendDataMessage(ctx, m.Stream, m.Fn, m.W, m.item())
 			cancel()
+			var r rCallResult
+			rClassify(reply, err, &r)
+			if r.Outcome == "nilnil" {
+				r.Outcome = "sent"
+			}
+			call.Outcome, call.EndSt = r.Outcome, rStamp()
+			s.mu.Lock()
+			call.Idx = len(s.calls)
+			s.calls = append(s.calls, call)
+			s.mu.Unlock()
 			if err != nil {
 				*fail = append(*fail, fmt.Sprintf("S%dF%d tag %d: %v", m.Stream, m.Fn, m.Tag, err))
 				return // the link is being re-established: the scenario is disturbed
@@ -467,6 +494,7 @@ func c20RunFaults(sp c20FaultSpec) c20FaultObs {
 		obs.err = "Close did not return"
 	}
 	obs.closedH, obs.closedE = rReadMetrics(ho.conn), rReadMetrics(eq.conn)
+	obs.sideH, obs.sideE, obs.blkH, obs.blkE = ho, eq, bh, be
 	box.mu.Lock()
 	obs.log = append([]c20BoxLog(nil), box.log...)
 	box.mu.Unlock()
@@ -642,6 +670,28 @@ func c20SECS1Faults(c *Ctx) {
 			"handler_deliveries(host,equipment)": []int{len(o.delivH), len(o.delivE)}, "faults_not_consumed(host,equipment)": []int{o.leftH, o.leftE}}
 		for _, v := range viols {
 			c.Violate(v[0], v[1], v[2], replay)
+		}
+		// correspondence: each endpoint's recorded history against the Lean model of the transport's generation / hand-off layer
+		if o.err == "" && len(o.failH)+len(o.failE) == 0 {
+			for _, sd := range []struct {
+				s *c20FSide
+				m rMetrics
+				b *secs1.ConnectionMetrics
+			}{{o.sideH, o.closedH, o.blkH}, {o.sideE, o.closedE, o.blkE}} {
+				if sd.s == nil {
+					continue
+				}
+				sd.s.mu.Lock()
+				calls := append([]s1tCall(nil), sd.s.calls...)
+				sd.s.mu.Unlock()
+				sv, srep := s1tCheck(c, sd.s.rec, calls, s1tExpect{M: sd.m, Blocks: sd.b, Checked: true})
+				for _, v := range sv {
+					if srep != nil {
+						srep["spec"] = sp
+					}
+					c.Violate("correspondence", v[0], v[1], srep)
+				}
+			}
 		}
 		na := 0
 		for _, l := range o.log {
